@@ -22,16 +22,16 @@ ASSUMPTIONS = [
 ]
 BUDGET = {"quick": (16, 300), "thorough": (16, 50000)}
 
-STATUS = [0, 1 << 8, 255 << 8, 9, 15, 11, 3, 4, 6, 4 | 0x80, 3 << 8, 4 << 8]        # exit codes (<<8), signals, signal+core flag
+STATUS = [0, 1 << 8, 255 << 8, 9, 15, 11, 3, 4, 6, 4 | 0x80, 35, 50 | 0x80, 64, 34, 3 << 8, 4 << 8]   # exit codes (<<8), signals (incl. real-time 34..64), signal+core flag
 
 event = st.one_of(
     st.tuples(st.just("exit"), st.integers(0, 5), st.sampled_from(STATUS)),
-    st.tuples(st.just("exit"), st.integers(0, 5), st.sampled_from(STATUS[:10])),
+    st.tuples(st.just("exit"), st.integers(0, 5), st.sampled_from(STATUS[:14])),
     st.tuples(st.just("sig"), st.lists(st.sampled_from(["SIGTTIN", "SIGTTOU"]), min_size=1, max_size=7)),
     st.tuples(st.just("sig"), st.lists(st.sampled_from(["SIGTTIN", "SIGTTOU"]), min_size=1, max_size=2)),
     st.tuples(st.just("hup"), st.integers(1, 4)),
-    st.tuples(st.just("fastdeath"), st.sampled_from([0, 1 << 8, 9, 11, 255 << 8])),
-    st.tuples(st.just("coalesced"), st.integers(0, 5), st.sampled_from([0, 1 << 8, 9])),
+    st.tuples(st.just("fastdeath"), st.sampled_from([0, 1 << 8, 9, 11, 255 << 8, 35, 11 | 0x80])),
+    st.tuples(st.just("coalesced"), st.integers(0, 5), st.sampled_from([0, 1 << 8, 9, 35])),
     st.tuples(st.just("tick")),
 )
 
